@@ -100,6 +100,19 @@ func makePattern(i int, rng *rand.Rand, mix [3]int, optP int) *patCase {
 	}
 }
 
+// offsetStep is the distance to the next start offset tried on an input of n runes: every
+// offset for ordinary inputs, the first few and then about sixteen more for the long inputs of the
+// threshold templates (a naive scan from every offset of a 2,600-rune text is quadratic).
+func offsetStep(n, s int) int {
+	if n <= 200 || s < 3 {
+		return 1
+	}
+	if st := n / 16; s+st <= n || s == n {
+		return st
+	}
+	return n - s
+}
+
 // noteCtx records the pattern a worker is busy with, so that a panic inside the
 // case is reported with it.
 func noteCtx(l *core.Local, pc *patCase) {
@@ -135,6 +148,13 @@ func inputsFor(pc *patCase, rng *rand.Rand, exhLen, nDirected int) [][]rune {
 		gen.Exhaustive(ex, exhLen, add)
 	}
 	sm := &gen.Sampler{R: rng, Alpha: alpha, Class: func(n *gen.Node, ch rune) bool { return ref.ClassMatch(n, ch, n.E.IC, d) }}
+	if pc.origin == "template:threshold-count" {
+		// the counts go up to 1100: the matching text must fit (fewer of these long inputs)
+		sm.Limit = 2600
+		if nDirected > 8 {
+			nDirected = 8
+		}
+	}
 	for k := 0; k < nDirected; k++ {
 		d := sm.Directed(pc.pat.AST, gen.Decorations)
 		add(d)
